@@ -22,7 +22,8 @@ ASSUMPTIONS = [
 ]
 
 WEIGHTS = dict(if_=4, for_=4, assign=3, macro=1.2, call=3, ins=3, data=5, label=2, block=1.5, scope=0.6, sym=0.5, org=0.3, reloc=0.1,
-               ascii=0.3, branch=0.0)
+               ascii=0.3, branch=0.0,
+               table=0.25, text=0.5, incbin=0.25, include=0.3, include_ips=0.15)      # every statement kind appears, the rare ones rarely
 
 
 def plan(tier: str, seed: int) -> list[dict]:
